@@ -20,9 +20,9 @@ EXTENDS Integers, Sequences, FiniteSets, TLC, Json, IOUtils
 Trace == ndJsonDeserialize(IOEnv.TRACE_FILE)
 
 VARIABLES l, scn, hooks, pred, reqi, tx, acq, step, lastw, pendA, pendN, failedH, okH, open, cancelled, cmds, laterStart, lateErr, sawAfter,
-          inWin, winStarted, outStarted, run, runView, seen, pg, ended, endS, endC, nviol
+          inWin, winStarted, outStarted, run, runView, seen, pg, ended, endS, endC, rnZ, nviol
 
-vars == <<l, scn, hooks, pred, reqi, tx, acq, step, lastw, pendA, pendN, failedH, okH, open, cancelled, cmds, laterStart, lateErr, sawAfter, inWin, winStarted, outStarted, run, runView, seen, pg, ended, endS, endC, nviol>>
+vars == <<l, scn, hooks, pred, reqi, tx, acq, step, lastw, pendA, pendN, failedH, okH, open, cancelled, cmds, laterStart, lateErr, sawAfter, inWin, winStarted, outStarted, run, runView, seen, pg, ended, endS, endC, rnZ, nviol>>
 
 Line == Trace[l]
 Soft(name, cond, detail) == IF cond THEN 0 ELSE IF PrintT(<<"VIOL", name, scn, l, detail>>) THEN 1 ELSE 1
@@ -32,7 +32,9 @@ HookIds == {hooks[i].id : i \in 1..Len(hooks)}
 HK(h) == CHOOSE r \in {hooks[i] : i \in 1..Len(hooks)} : r.id = h
 Dst(op) == CASE op = "START_ACTIVITY" -> "RUNNING" [] op = "STOP_ACTIVITY" -> "CONFIGURED" [] op = "RESET" -> "DEPLOYED"
              [] op = "CONFIGURE" -> "CONFIGURED" [] op = "GO_ERROR" -> "ERROR" [] OTHER -> ""
-NoStep == [m |-> "", k |-> "", tx |-> "", cf |-> FALSE]   \* cf: a failed critical call was collected in this step
+\* cf: a failed critical call was collected in this step; st: hooks started in this step; fw: weights of this step at which the
+\* failure of a critical hook was collected
+NoStep == [m |-> "", k |-> "", tx |-> "", cf |-> FALSE, st |-> {}, fw |-> {}]
 NoView == [rn |-> 0, sosor |-> 0]
 NoSeen == [sosor |-> 0, eosor |-> 0, soeor |-> 0, eoeor |-> 0]
 
@@ -40,20 +42,20 @@ Init ==
   /\ l = 1 /\ scn = -1 /\ hooks = <<>> /\ pred = <<>> /\ reqi = 0 /\ tx = "" /\ acq = "" /\ step = NoStep /\ lastw = -100000
   /\ open = {} /\ pendA = {} /\ pendN = <<>> /\ failedH = {} /\ okH = {} /\ cancelled = FALSE /\ cmds = 0 /\ laterStart = FALSE /\ lateErr = FALSE /\ sawAfter = FALSE
   /\ inWin = FALSE /\ winStarted = {} /\ outStarted = {}
-  /\ run = 0 /\ runView = NoView /\ seen = NoSeen /\ pg = {} /\ ended = TRUE /\ endS = 0 /\ endC = 0 /\ nviol = 0
+  /\ run = 0 /\ runView = NoView /\ seen = NoSeen /\ pg = {} /\ ended = TRUE /\ endS = 0 /\ endC = 0 /\ rnZ = FALSE /\ nviol = 0
 
 TReset ==
   /\ Line.ev = "Reset"
   /\ scn' = Line.scn /\ hooks' = Line.model.hooks /\ pred' = Line.model.pred /\ reqi' = 0 /\ tx' = "" /\ acq' = ""
   /\ step' = NoStep /\ lastw' = -100000 /\ open' = {} /\ pendA' = {} /\ pendN' = <<>> /\ failedH' = {} /\ okH' = {} /\ cancelled' = FALSE /\ cmds' = 0 /\ laterStart' = FALSE /\ lateErr' = FALSE /\ sawAfter' = FALSE
   /\ inWin' = FALSE /\ winStarted' = {} /\ outStarted' = {}
-  /\ run' = 0 /\ runView' = NoView /\ seen' = NoSeen /\ pg' = {} /\ ended' = TRUE /\ endS' = 0 /\ endC' = 0
+  /\ run' = 0 /\ runView' = NoView /\ seen' = NoSeen /\ pg' = {} /\ ended' = TRUE /\ endS' = 0 /\ endC' = 0 /\ rnZ' = FALSE
   /\ UNCHANGED nviol
 
 TAcq ==
   /\ Line.ev = "Acq"
   /\ tx' = Line.what /\ acq' = Line.st /\ cancelled' = FALSE /\ cmds' = 0 /\ laterStart' = FALSE /\ lateErr' = FALSE /\ sawAfter' = FALSE
-  /\ UNCHANGED <<scn, hooks, pred, reqi, step, lastw, pendA, pendN, failedH, okH, open, inWin, winStarted, outStarted, run, runView, seen, pg, ended, endS, endC, nviol>>
+  /\ UNCHANGED <<scn, hooks, pred, reqi, step, lastw, pendA, pendN, failedH, okH, open, inWin, winStarted, outStarted, run, runView, seen, pg, ended, endS, endC, rnZ, nviol>>
 
 \* end of a transition: the C09 clauses about what a failure at each moment means
 TRel ==
@@ -66,7 +68,7 @@ TRel ==
        + Soft("Gone", pg = {}, pg)
   /\ pg' = {}
   /\ tx' = "" /\ acq' = "" /\ cancelled' = FALSE /\ cmds' = 0 /\ laterStart' = FALSE /\ lateErr' = FALSE /\ sawAfter' = FALSE
-  /\ UNCHANGED <<scn, hooks, pred, reqi, step, lastw, pendA, pendN, failedH, okH, open, inWin, winStarted, outStarted, run, runView, seen, ended, endS, endC>>
+  /\ UNCHANGED <<scn, hooks, pred, reqi, step, lastw, pendA, pendN, failedH, okH, open, inWin, winStarted, outStarted, run, runView, seen, ended, endS, endC, rnZ>>
 
 \* started and not yet collected instances per hook (a hook may be started again before it was collected)
 Cnt(f, h) == IF h \in DOMAIN f THEN f[h] ELSE 0
@@ -74,12 +76,15 @@ Occ(seq, h) == Cardinality({i \in 1..Len(seq) : seq[i] = h})
 AddN(f, seq) == [h \in DOMAIN f \cup {seq[i] : i \in 1..Len(seq)} |-> Cnt(f, h) + Occ(seq, h)]
 SubN(f, seq) == [h \in DOMAIN f \cup {seq[i] : i \in 1..Len(seq)} |-> IF Cnt(f, h) > Occ(seq, h) THEN Cnt(f, h) - Occ(seq, h) ELSE 0]
 
+Sgn(w) == IF w < 0 THEN -1 ELSE 1
+Skipped(w, k) == \E f \in step.fw : f < w /\ (k \in {"before", "leave"} \/ Sgn(f) = Sgn(w))
+
 AwaitHere(h, m) == HK(h).am = m /\ (HK(h).tm # m \/ HK(h).aw >= HK(h).tw)
 
 TStep ==
   /\ Line.ev = "Step"
   /\ IF Line.phase = "start"
-       THEN /\ step' = [m |-> Line.m, k |-> Line.k, tx |-> Line.tx, cf |-> FALSE] /\ lastw' = -100000
+       THEN /\ step' = [m |-> Line.m, k |-> Line.k, tx |-> Line.tx, cf |-> FALSE, st |-> {}, fw |-> {}] /\ lastw' = -100000
             /\ laterStart' = (laterStart \/ cancelled)
             /\ sawAfter' = (sawAfter \/ Line.k = "after")
             /\ nviol' = nviol
@@ -90,7 +95,14 @@ TStep ==
             /\ UNCHANGED <<laterStart, sawAfter>>
             /\ nviol' = nviol
                  \* C08 Barrier: the moment ends and a call awaited in it has not returned
-                 + Soft("Barrier", Line.err \/ \A h \in pendA : ~AwaitHere(h, Line.m), <<Line.m, pendA>>)
+                 \* (a weight is legitimately not reached after the failure of a critical hook at an earlier weight: in a
+                 \*  before_/leave_ moment the transition is cancelled there; in an enter_/after_ moment only the rest of
+                 \*  that pass - weights of the same sign - is given up, the other pass still runs)
+                 + Soft("Barrier", \A h \in pendA : AwaitHere(h, Line.m) => Skipped(HK(h).aw, Line.k), <<Line.m, pendA, step.fw>>)
+                 \* C08: every hook declared at this moment was started, unless its weight was legitimately not reached
+                 + Soft("AtTrigger", step.m = Line.m =>
+                            \A h \in HookIds : (HK(h).tm = Line.m /\ step.tx = Line.tx) => (h \in step.st \/ Skipped(HK(h).tw, Line.k)),
+                        <<Line.m, "not started", {h \in HookIds : HK(h).tm = Line.m} \ step.st, step.fw>>)
                  \* C09: a critical hook that was started, has failed and is awaited in this moment makes the moment fail
                  + Soft("CriticalFailureReported",
                         (\E h \in failedH : HK(h).crit /\ AwaitHere(h, Line.m) /\ Line.tx = tx) => Line.err,
@@ -106,6 +118,8 @@ TStep ==
                         (Line.err /\ Line.k # "tasks") =>
                            \E h \in HookIds : HK(h).crit /\ HK(h).fails /\ (Line.k \in {"enter", "after"} \/ HK(h).am = Line.m),
                         <<Line.m, Line.k>>)
+  \* (StartActivityTransition.do gives the number back when the tasks could not be started: the GO_ERROR that follows reports 0)
+  /\ rnZ' = (rnZ \/ (Line.phase = "end" /\ Line.k = "tasks" /\ Line.tx = "START_ACTIVITY" /\ Line.err))
   /\ inWin' = IF Line.phase = "end" /\ Line.m = "after_STOP_ACTIVITY" THEN FALSE ELSE inWin
   /\ winStarted' = IF Line.phase = "end" /\ Line.m = "after_STOP_ACTIVITY" THEN {} ELSE winStarted
   /\ UNCHANGED <<scn, hooks, pred, reqi, tx, acq, pendA, pendN, failedH, okH, open, cmds, outStarted, run, runView, seen, pg, ended, endS, endC>>
@@ -151,7 +165,7 @@ THS ==
                                /\ (Line.soeor # 0 /\ Line.eosor # 0 => Line.eosor <= Line.soeor)
                                /\ (Line.eoeor # 0 => Line.soeor # 0 /\ Line.soeor <= Line.eoeor),
                  <<Line.hook, Line.sosor, Line.eosor, Line.soeor, Line.eoeor>>)
-  /\ UNCHANGED <<scn, hooks, pred, reqi, tx, acq, step, lastw, pendA, pendN, failedH, okH, cancelled, cmds, laterStart, lateErr, sawAfter, inWin, winStarted, outStarted, run, ended, endS, endC>>
+  /\ UNCHANGED <<scn, hooks, pred, reqi, tx, acq, step, lastw, pendA, pendN, failedH, okH, cancelled, cmds, laterStart, lateErr, sawAfter, inWin, winStarted, outStarted, run, ended, endS, endC, rnZ>>
 
 \* handleHooks starts the calls triggered at (moment, weight)   [hook point env.hooks.start]
 THStart ==
@@ -159,6 +173,7 @@ THStart ==
   /\ LET C == {Line.calls[i] : i \in 1..Len(Line.calls)} \cap HookIds IN
      /\ pendA' = pendA \cup C
      /\ pendN' = AddN(pendN, Line.calls)
+     /\ step' = [step EXCEPT !.st = @ \cup C]
      \* (within one weight the calls are started first, then the calls due there are awaited, then the hook tasks run:
      \*  key = 3*weight + 0 | 1 | 2)
      /\ lastw' = 3 * Line.w + (IF Line.kind = "tasks" THEN 2 ELSE 0)
@@ -170,7 +185,7 @@ THStart ==
           + Soft("Ordered", 3 * Line.w + (IF Line.kind = "tasks" THEN 2 ELSE 0) > lastw, <<Line.m, Line.w, Line.kind, lastw>>)
           \* C09: after a critical failure at before_/leave_ no later hook of that transition is started
           + Soft("CancelBefore", ~cancelled, <<Line.m, Line.w, C>>)
-  /\ UNCHANGED <<scn, hooks, pred, reqi, tx, acq, step, failedH, okH, open, cancelled, cmds, laterStart, lateErr, sawAfter, inWin, run, runView, seen, pg, ended, endS, endC>>
+  /\ UNCHANGED <<scn, hooks, pred, reqi, tx, acq, failedH, okH, open, cancelled, cmds, laterStart, lateErr, sawAfter, inWin, run, runView, seen, pg, ended, endS, endC, rnZ>>
 
 \* handleHooks has awaited the calls due at (moment, weight)   [hook point env.hooks.awaited]
 THAwaited ==
@@ -182,7 +197,8 @@ THAwaited ==
      /\ okH' = okH \ C
      /\ lastw' = 3 * Line.w + (IF Line.kind = "tasks" THEN 2 ELSE 1)
      /\ cancelled' = (cancelled \/ (step.k \in {"before", "leave"} /\ \E c \in C : HK(c).crit /\ HK(c).fails /\ (HK(c).once => c \in failedH)))
-     /\ step' = [step EXCEPT !.cf = @ \/ (step.m = Line.m /\ \E c \in C \cap failedH : HK(c).crit)]
+     /\ step' = [step EXCEPT !.cf = @ \/ (step.m = Line.m /\ \E c \in C \cap failedH : HK(c).crit),
+                             !.fw = IF \E c \in C \cap failedH : HK(c).crit THEN @ \cup {Line.w} ELSE @]
      /\ nviol' = nviol
           \* collected at the declared await point, and only calls that were started and not collected before
           + Soft("Barrier", \A c \in C : HK(c).am = Line.m /\ HK(c).aw = Line.w, <<Line.m, Line.w, C>>)
@@ -200,21 +216,21 @@ THAwaited ==
           \* C09 (and C08: the call's result is collected, not dropped): the failure of a critical call that was
           \* started and has failed is reported where the call is awaited
           + Soft("CriticalFailureReported", (\E c \in C \cap failedH : HK(c).crit) => Line.errors > 0, <<Line.m, C \cap failedH, Line.errors>>)
-  /\ UNCHANGED <<scn, hooks, pred, reqi, tx, acq, open, cmds, laterStart, lateErr, sawAfter, inWin, winStarted, outStarted, run, runView, seen, pg, ended, endS, endC>>
+  /\ UNCHANGED <<scn, hooks, pred, reqi, tx, acq, open, cmds, laterStart, lateErr, sawAfter, inWin, winStarted, outStarted, run, runView, seen, pg, ended, endS, endC, rnZ>>
 
 THE ==
   /\ Line.ev = "HE"
   /\ open' = open \ {Line.hook}
   /\ failedH' = IF Line.ok THEN failedH ELSE failedH \cup ({Line.hook} \cap pendA)   \* failed and not yet collected
   /\ okH' = IF Line.ok THEN okH \cup ({Line.hook} \cap pendA) ELSE okH
-  /\ UNCHANGED <<scn, hooks, pred, reqi, tx, acq, step, lastw, pendA, pendN, cancelled, cmds, laterStart, lateErr, sawAfter, inWin, winStarted, outStarted, run, runView, seen, pg, ended, endS, endC, nviol>>
+  /\ UNCHANGED <<scn, hooks, pred, reqi, tx, acq, step, lastw, pendA, pendN, cancelled, cmds, laterStart, lateErr, sawAfter, inWin, winStarted, outStarted, run, runView, seen, pg, ended, endS, endC, rnZ, nviol>>
 
 TCmd ==
   /\ Line.ev = "Cmd"
   /\ cmds' = IF Line.tx = tx THEN cmds + 1 ELSE cmds
   \* C10: values of a previous run are never visible in the next: after the START command a task holds no end-of-run time
   /\ nviol' = nviol + Soft("NoLeak", (Line.tx = "START_ACTIVITY") => ~Line.held, <<Line.tx, "task still holds run_end_time_ms of the previous run">>)
-  /\ UNCHANGED <<scn, hooks, pred, reqi, tx, acq, step, lastw, pendA, pendN, failedH, okH, open, cancelled, laterStart, lateErr, sawAfter, inWin, winStarted, outStarted, run, runView, seen, pg, ended, endS, endC>>
+  /\ UNCHANGED <<scn, hooks, pred, reqi, tx, acq, step, lastw, pendA, pendN, failedH, okH, open, cancelled, laterStart, lateErr, sawAfter, inWin, winStarted, outStarted, run, runView, seen, pg, ended, endS, endC, rnZ>>
 
 \* published run events: SOSOR (START STARTED) opens a run; the end-of-run pair must occur exactly once per run
 TRun ==
@@ -238,7 +254,11 @@ TRun ==
         /\ ended' = IF isStart THEN FALSE ELSE ended
         /\ endS' = IF isStart THEN 0 ELSE IF isEndS \/ (isTd /\ endS = 0) THEN endS + 1 ELSE endS
         /\ endC' = IF isStart THEN 0 ELSE IF isEndC \/ (isTd /\ endS # 0) THEN endC + 1 ELSE endC
+        /\ rnZ' = IF isStart THEN FALSE ELSE rnZ
         /\ nviol' = nviol
+             \* C10: the number stays with the run until its end is recorded: the end-of-run events name it (0 only after a
+             \* START whose task step failed)
+             + Soft("Stable", ((isEndS \/ isEndC) /\ Line.rn = 0 /\ run # 0) => rnZ, <<Line.tx, Line.status, "run number 0 in the end-of-run event of run", run>>)
              \* (a START cancelled before the environment was RUNNING is not a run whose end must be recorded)
              + Soft("EndExactlyOnce", isStart => (run = 0 \/ ended \/ (endS = 1 /\ endC = 1)), <<run, endS, endC>>)
              + Soft("EndExactlyOnce", ((isEndS \/ isEndC \/ isTd) /\ Line.rn # 0) => Line.rn = run, <<Line.tx, Line.rn, run>>)
@@ -263,27 +283,34 @@ TReply ==
              \* C10: the run number is gone after a successful STOP and reported while RUNNING
              + Soft("Gone", over => Line.rn = 0, <<Line.op, Line.st, Line.rn>>)
              + Soft("SetBetween", (Line.code = "OK" /\ Line.st = "RUNNING") => Line.rn = run, <<Line.op, Line.rn, run>>)
-  /\ UNCHANGED <<scn, hooks, pred, tx, acq, step, lastw, pendA, pendN, failedH, okH, open, cancelled, cmds, laterStart, lateErr, sawAfter, inWin, winStarted, outStarted, run, runView, seen, pg, endS, endC>>
+  /\ UNCHANGED <<scn, hooks, pred, tx, acq, step, lastw, pendA, pendN, failedH, okH, open, cancelled, cmds, laterStart, lateErr, sawAfter, inWin, winStarted, outStarted, run, runView, seen, pg, endS, endC, rnZ>>
 
 \* end of a scenario: every run that was started has been ended exactly once
 TEnd ==
   /\ Line.ev = "End"
   /\ nviol' = nviol + Soft("EndExactlyOnce", run = 0 \/ ended \/ (endS = 1 /\ endC = 1), <<run, endS, endC>>)
-  /\ UNCHANGED <<scn, hooks, pred, reqi, tx, acq, step, lastw, pendA, pendN, failedH, okH, open, cancelled, cmds, laterStart, lateErr, sawAfter, inWin, winStarted, outStarted, run, runView, seen, pg, ended, endS, endC>>
+  /\ UNCHANGED <<scn, hooks, pred, reqi, tx, acq, step, lastw, pendA, pendN, failedH, okH, open, cancelled, cmds, laterStart, lateErr, sawAfter, inWin, winStarted, outStarted, run, runView, seen, pg, ended, endS, endC, rnZ>>
 
 \* after the teardown: no started call is left waiting to hand over its result (each was collected, or cancelled at teardown)
 TPending ==
   /\ Line.ev = "Pending"
   /\ nviol' = nviol + Soft("OnceOrCancelled", Line.n = 0, <<"calls still pending after teardown", Line.n>>)
-  /\ UNCHANGED <<scn, hooks, pred, reqi, tx, acq, step, lastw, pendA, pendN, failedH, okH, open, cancelled, cmds, laterStart, lateErr, sawAfter, inWin, winStarted, outStarted, run, runView, seen, pg, ended, endS, endC>>
+  /\ UNCHANGED <<scn, hooks, pred, reqi, tx, acq, step, lastw, pendA, pendN, failedH, okH, open, cancelled, cmds, laterStart, lateErr, sawAfter, inWin, winStarted, outStarted, run, runView, seen, pg, ended, endS, endC, rnZ>>
+
+\* the scenario waited, while one call of a (moment, weight) was held at its gate, for its companion of the same (moment,
+\* weight) to begin executing: hooks started together do not wait for each other
+THookSeen ==
+  /\ Line.ev = "HookSeen"
+  /\ nviol' = nviol + Soft("AtTrigger", Line.ok, <<Line.hook, "not started while the call started together with it was in flight">>)
+  /\ UNCHANGED <<scn, hooks, pred, reqi, tx, acq, step, lastw, pendA, pendN, failedH, okH, open, cancelled, cmds, laterStart, lateErr, sawAfter, inWin, winStarted, outStarted, run, runView, seen, pg, ended, endS, endC, rnZ>>
 
 TOther ==
-  /\ Line.ev \notin {"Reset", "Acq", "Rel", "Step", "HS", "HStart", "HAwaited", "HE", "Cmd", "Run", "Reply", "End", "Pending"}
-  /\ UNCHANGED <<scn, hooks, pred, reqi, tx, acq, step, lastw, pendA, pendN, failedH, okH, open, cancelled, cmds, laterStart, lateErr, sawAfter, inWin, winStarted, outStarted, run, runView, seen, pg, ended, endS, endC, nviol>>
+  /\ Line.ev \notin {"Reset", "Acq", "Rel", "Step", "HS", "HStart", "HAwaited", "HE", "Cmd", "Run", "Reply", "End", "Pending", "HookSeen"}
+  /\ UNCHANGED <<scn, hooks, pred, reqi, tx, acq, step, lastw, pendA, pendN, failedH, okH, open, cancelled, cmds, laterStart, lateErr, sawAfter, inWin, winStarted, outStarted, run, runView, seen, pg, ended, endS, endC, rnZ, nviol>>
 
 TraceNext ==
   /\ l <= Len(Trace)
-  /\ (TReset \/ TAcq \/ TRel \/ TStep \/ THS \/ THStart \/ THAwaited \/ THE \/ TCmd \/ TRun \/ TReply \/ TEnd \/ TPending \/ TOther)
+  /\ (TReset \/ TAcq \/ TRel \/ TStep \/ THS \/ THStart \/ THAwaited \/ THE \/ TCmd \/ TRun \/ TReply \/ TEnd \/ TPending \/ THookSeen \/ TOther)
   /\ l' = l + 1
 
 TraceSpec == Init /\ [][TraceNext]_vars
